@@ -117,8 +117,29 @@ func innerList(el any) (map[string]any, []any, bool) {
 	return m, l, ok
 }
 
-// ss7BadHex is set by the bad-hex operator (read and reset by c07Run).
-var ss7BadHex bool
+// isHex: "0x" followed by an even number of hex digits.
+func isHexStr(s string) bool {
+	if !strings.HasPrefix(s, "0x") || len(s)%2 != 0 {
+		return false
+	}
+	for _, c := range s[2:] {
+		if !(c >= '0' && c <= '9' || c >= 'a' && c <= 'f' || c >= 'A' && c <= 'F') {
+			return false
+		}
+	}
+	return true
+}
+
+// noteHex: the members the client decodes into byte strings in every plan (a block's own
+// hash / parentHash; blockHash of a log, receipt or trace; address and data of a log) must
+// be hex in the response as finally served.
+func (ss *servedSet) noteHex(x map[string]any, keys ...string) {
+	for _, k := range keys {
+		if sv, ok := x[k].(string); ok && !isHexStr(sv) {
+			ss.badHex = true
+		}
+	}
+}
 
 var c07Ops = []corruption{
 	{"drop-element", func(resp any, pos, arg int) (any, bool) {
@@ -420,7 +441,6 @@ var c07Ops = []corruption{
 			v = v[:2] + "0x" + v[4:]
 		}
 		strs[i](v)
-		ss7BadHex = true
 		return resp, true
 	}},
 	{"item-change-tx-index", func(resp any, pos, arg int) (any, bool) {
@@ -545,6 +565,7 @@ func collectServed(ss *servedSet, ri sim.ReqInfo, resp any, start, limit uint64)
 		switch ri.Kind {
 		case "headers", "blocks":
 			r, _ := asObj(res)
+			ss.noteHex(r, "hash", "parentHash")
 			n := pu(r["number"])
 			if _, dup := ss.blocks[n]; dup {
 				ss.dupBlocks = true
@@ -560,6 +581,9 @@ func collectServed(ss *servedSet, ri sim.ReqInfo, resp any, start, limit uint64)
 			for _, x := range list {
 				ss.logs = append(ss.logs, parseLog(x))
 				ss.noteHash(x)
+				if lm, ok := asObj(x); ok {
+					ss.noteHex(lm, "blockHash", "address", "data")
+				}
 			}
 		case "receipts":
 			list, _ := asArr(res)
@@ -567,6 +591,7 @@ func collectServed(ss *servedSet, ri sim.ReqInfo, resp any, start, limit uint64)
 				r, _ := asObj(x)
 				ss.receipts = append(ss.receipts, r)
 				ss.noteHash(x)
+				ss.noteHex(r, "blockHash")
 				// (a reordered batch is still attached by the block each receipt names: allowed)
 				bn := pu(r["blockNumber"])
 				if bn < start || bn >= start+limit || (j > 0 && bn != pu(list[0].(map[string]any)["blockNumber"])) {
@@ -583,6 +608,7 @@ func collectServed(ss *servedSet, ri sim.ReqInfo, resp any, start, limit uint64)
 				r, _ := asObj(x)
 				ss.traces = append(ss.traces, r)
 				ss.noteHash(x)
+				ss.noteHex(r, "blockHash")
 				bn := pu(r["blockNumber"])
 				if bn < start || bn >= start+limit || (j > 0 && bn != pu(list[0].(map[string]any)["blockNumber"])) {
 					ss.wrongBlock = true
@@ -900,6 +926,7 @@ func c07Run(plan string, start, limit uint64, muts []c07Mut) (viol string, appli
 	var mu sync.Mutex
 	reqN := 0
 	var lagged []*sim.Fault
+	remade := map[*sim.Fault]bool{} // the replica's answer was rewritten by another operator afterwards
 	node.OnRequest = func(n *sim.Node, ri sim.ReqInfo) *sim.Fault {
 		mu.Lock()
 		defer mu.Unlock()
@@ -935,10 +962,13 @@ func c07Run(plan string, start, limit uint64, muts []c07Mut) (viol string, appli
 			}
 		}
 		f.Mutate = func(resp any) any {
+			mu.Lock()
+			defer mu.Unlock()
 			for _, m := range mine {
 				if m.op >= 0 {
 					if out, ok := c07Ops[m.op].apply(resp, m.pos, m.arg); ok {
 						resp = out
+						remade[f] = true
 						applied = append(applied, fmt.Sprintf("%s@req%d(%s)", c07Ops[m.op].name, i, ri.Kind))
 					}
 				}
@@ -985,16 +1015,15 @@ func c07Run(plan string, start, limit uint64, muts []c07Mut) (viol string, appli
 	if ss.transport && err == nil {
 		// a truncation that still leaves a complete JSON document is not a transport failure
 		for _, a := range applied {
-			if !strings.HasPrefix(a, "truncate@") {
+			if strings.HasPrefix(a, "http-") || a == "invalid-json" || a == "closed-connection" {
 				return "no error although the transport failed (" + a + ")", applied, false, reqN
 			}
 		}
 		ss.transport = false
 	}
 	parsedOK = !ss.transport
-	ss.badHex, ss7BadHex = ss7BadHex, false
 	for _, f := range lagged {
-		if f.LagHit {
+		if f.LagHit && !remade[f] {
 			ss.lagging = true
 		}
 	}
